@@ -14,9 +14,10 @@
    + and * of the scalars commute (needed where the Node API evaluates add / multiply with a
    scalar first operand as f(b, a)); the static-shape theorem has none. *)
 From Coq Require Import List String Bool Arith NArith ZArith.
-From PV Require Import Base.U32 Shape.ShapeImpl Shape.ShapeSpec Tensor.FrontEnd.
+From PV Require Import Base.U32 Shape.ShapeImpl Shape.ShapeSpec Tensor.Kernels Tensor.Index Tensor.FrontEnd Tensor.FrontEndBilinear
+     Tensor.AdjCore Tensor.AdjScalar.
 From PV Require Import Tables.OpSyntax Tables.OpRows Tables.ApiModel Tables.ApiTable Tables.ApiFacts
-     Tables.RealSem Tables.RealProofs Tables.RealExamples.
+     Tables.RealSem Tables.RealProofs Tables.RealKernels Tables.RealExamples.
 Import ListNotations.
 
 (* ---- the finite tie, over the table regenerated from /repo on this run: for every row, the
@@ -169,6 +170,87 @@ Theorem C04_real_reachable_wf :
     Forall (Forall (fun t : @tensor R => ShapeSpec.wf (tn_shape t))) out.
 Proof. exact (@real_reachable_wf). Qed.
 Print Assumptions C04_real_reachable_wf.
+
+(* ---- closing the loop with C11: when a Device entry of the real instance accepts a call with
+   result shape y, the kernel index program that the instance runs for it (Tables/RealSem.core_data),
+   with exactly these shape and attribute arguments, writes every output element exactly once and
+   reads only inside its operands; the result shape the elementwise / scalar kernels compute
+   internally is the converted shape of the rule.  (real_entries_are_frontend composed with the
+   *_fw_safe corollaries behind Props/Properties_C11_frontend.v.) *)
+Theorem C04_real_entry_kernels_safe :
+  forall (R : Type) (rO rI : R) (rsub : R -> R -> R) (fle flt : R -> R -> bool) (ffin : R -> bool),
+
+    (forall x d lo up y, wfb x = true ->
+       @entry_shape R "slice_fw" [VT x; VA (AU d); VA (AU lo); VA (AU up)] = Some [y] ->
+       sequential (slice_fw (to_t x) (to_t y) (N.to_nat (wrap32 d)) (N.to_nat (wrap32 lo))) (tsize (to_t y)) /\
+       mov_in_bounds (slice_fw (to_t x) (to_t y) (N.to_nat (wrap32 d)) (N.to_nat (wrap32 lo))) [tsize (to_t x)]) /\
+    (forall x ids d y, wfb x = true -> (N.of_nat (List.length ids) <? P32)%N = true ->
+       @entry_shape R "pick_fw" [VT x; VA (AUs ids); VA (AU d)] = Some [y] ->
+       sequential (pick_fw (to_t x) (to_t y) (map N.to_nat (map wrap32 ids)) (N.to_nat (wrap32 d))) (tsize (to_t y)) /\
+       mov_in_bounds (pick_fw (to_t x) (to_t y) (map N.to_nat (map wrap32 ids)) (N.to_nat (wrap32 d))) [tsize (to_t x)]) /\
+    (forall x lo up y, wfb x = true ->
+       @entry_shape R "batch_slice_fw" [VT x; VA (AU lo); VA (AU up)] = Some [y] ->
+       sequential (batch_slice_fw (to_t x) (to_t y) (N.to_nat (wrap32 lo))) (tsize (to_t y)) /\
+       mov_in_bounds (batch_slice_fw (to_t x) (to_t y) (N.to_nat (wrap32 lo))) [tsize (to_t x)]) /\
+    (forall x ids y, wfb x = true -> (N.of_nat (List.length ids) <? P32)%N = true ->
+       @entry_shape R "batch_pick_fw" [VT x; VA (AUs ids)] = Some [y] ->
+       sequential (batch_pick_fw (to_t x) (to_t y) (map N.to_nat (map wrap32 ids))) (tsize (to_t y)) /\
+       mov_in_bounds (batch_pick_fw (to_t x) (to_t y) (map N.to_nat (map wrap32 ids))) [tsize (to_t x)]) /\
+    (forall x d n y, wfb x = true ->
+       @entry_shape R "broadcast_fw" [VT x; VA (AU d); VA (AU n)] = Some [y] ->
+       covers (broadcast_fw (to_t x) (to_t y) (N.to_nat (wrap32 d)) (N.to_nat (wrap32 n))) (tsize (to_t y)) /\
+       mov_in_bounds (broadcast_fw (to_t x) (to_t y) (N.to_nat (wrap32 d)) (N.to_nat (wrap32 n))) [tsize (to_t x)]) /\
+    (forall name x d y, In name reduce_entries -> wfb x = true ->
+       @entry_shape R name [VT x; VA (AU d)] = Some [y] ->
+       sequential (axis_red (to_t x) (to_t y) (N.to_nat (wrap32 d))) (tsize (to_t y)) /\
+       red_in_bounds (axis_red (to_t x) (to_t y) (N.to_nat (wrap32 d))) (tsize (to_t x))) /\
+    (forall x d y, wfb x = true -> @entry_shape R "flip_fw" [VT x; VA (AU d)] = Some [y] ->
+       covers (flip_pairs (to_t x) (N.to_nat (wrap32 d))) (tsize (to_t y)) /\
+       acc_in_bounds (flip_pairs (to_t x) (N.to_nat (wrap32 d))) (tsize (to_t y)) (tsize (to_t x))) /\
+    (forall x y, wfb x = true -> @entry_shape R "transpose_fw" [VT x] = Some [y] ->
+       covers (transpose_fw (to_t x) (to_t y)) (tsize (to_t y)) /\
+       mov_in_bounds (transpose_fw (to_t x) (to_t y)) [tsize (to_t x)]) /\
+    (forall x p y, wfb x = true -> (N.of_nat (List.length p) <? P32)%N = true -> @entry_shape R "permute_dims_fw" [VT x; VA (AUs p)] = Some [y] ->
+       covers (permute_fw (to_t x) (to_t y) (map N.to_nat (map wrap32 p))) (tsize (to_t y)) /\
+       mov_in_bounds (permute_fw (to_t x) (to_t y) (map N.to_nat (map wrap32 p))) [tsize (to_t x)]) /\
+    (forall x y, wfb x = true -> @entry_shape R "batch_sum_fw" [VT x] = Some [y] ->
+       sequential (batch_sum_red (to_t x) (to_t y)) (tsize (to_t y)) /\
+       red_in_bounds (batch_sum_red (to_t x) (to_t y)) (tsize (to_t x))) /\
+    (forall name a b y, In name elementwise_entries -> wfb a = true -> wfb b = true ->
+       @entry_shape R name [VT a; VT b] = Some [y] ->
+       ew_shape (to_t a) (to_t b) = to_t y /\
+       sequential (ab_fw (to_t a) (to_t b) (to_t y)) (tsize (to_t y)) /\
+       tri_in_bounds (ab_fw (to_t a) (to_t b) (to_t y)) (tsize (to_t y)) (tsize (to_t a)) (tsize (to_t b))) /\
+    (forall name x k y, In name scalar_entries -> wfb x = true -> wfb k = true ->
+       @entry_shape R name [VT x; VT k] = Some [y] ->
+       sc_shape (to_t x) (to_t k) = to_t y /\
+       sequential (scalar_fw (to_t x) (to_t k) (to_t y)) (tsize (to_t y)) /\
+       tri_in_bounds (scalar_fw (to_t x) (to_t k) (to_t y)) (tsize (to_t y)) (tsize (to_t x)) (tsize (to_t k))) /\
+    (forall a b y, wfb a = true -> wfb b = true -> @entry_shape R "matmul_fw" [VT a; VT b] = Some [y] ->
+       tri_in_bounds (matmul_contribs (to_t a) (to_t b) (to_t y)) (tsize (to_t y)) (tsize (to_t a)) (tsize (to_t b))) /\
+    (forall x w p0 p1 s0 s1 d0 d1 y, wfb x = true -> wfb w = true ->
+       @entry_shape R "conv2d_fw" [VT x; VT w; VA (AU p0); VA (AU p1); VA (AU s0); VA (AU s1); VA (AU d0); VA (AU d1)] = Some [y] ->
+       tri_in_bounds (conv2d_triples (to_t x) (to_t w) (to_t y) (N.to_nat (wrap32 p0)) (N.to_nat (wrap32 p1)) (N.to_nat (wrap32 s0))
+                        (N.to_nat (wrap32 s1)) (N.to_nat (wrap32 d0)) (N.to_nat (wrap32 d1)))
+                     (tsize (to_t y)) (tsize (to_t x)) (tsize (to_t w))) /\
+    (forall x w0 w1 p0 p1 s0 s1 y, wfb x = true ->
+       @entry_shape R "max_pool2d_fw" [VT x; VA (AU w0); VA (AU w1); VA (AU p0); VA (AU p1); VA (AU s0); VA (AU s1)] = Some [y] ->
+       sequential (pool2d_red (to_t x) (to_t y) (N.to_nat (wrap32 w0)) (N.to_nat (wrap32 w1)) (N.to_nat (wrap32 p0)) (N.to_nat (wrap32 p1))
+                     (N.to_nat (wrap32 s0)) (N.to_nat (wrap32 s1))) (tsize (to_t y)) /\
+       red_in_bounds (pool2d_red (to_t x) (to_t y) (N.to_nat (wrap32 w0)) (N.to_nat (wrap32 w1)) (N.to_nat (wrap32 p0)) (N.to_nat (wrap32 p1))
+                        (N.to_nat (wrap32 s0)) (N.to_nat (wrap32 s1))) (tsize (to_t x))) /\
+    (forall (ts : list (@tensor R)) d y, forallb wfb (map tn_shape ts) = true -> (N.of_nat (List.length ts) <? P32)%N = true ->
+       run_guard rO rI rsub fle flt ffin (GEmpty 0) [VL ts; VA (AU d)] = false ->
+       @entry_shape R "concat_fw" (shapes (@tensor R) shape (@attr R) tn_shape [VL ts; VA (AU d)]) = Some [y] ->
+       covers (concat_fw (map to_t (map tn_shape ts)) (to_t y) (N.to_nat (wrap32 d))) (tsize (to_t y)) /\
+       mov_in_bounds (concat_fw (map to_t (map tn_shape ts)) (to_t y) (N.to_nat (wrap32 d))) (map tsize (map to_t (map tn_shape ts)))) /\
+    (forall (ts : list (@tensor R)) y, forallb wfb (map tn_shape ts) = true -> (N.of_nat (List.length ts) <? P32)%N = true ->
+       run_guard rO rI rsub fle flt ffin (GEmpty 0) [VL ts] = false ->
+       @entry_shape R "batch_concat_fw" (shapes (@tensor R) shape (@attr R) tn_shape [VL ts]) = Some [y] ->
+       sequential (batch_concat_fw (map to_t (map tn_shape ts))) (tsize (to_t y)) /\
+       mov_in_bounds (batch_concat_fw (map to_t (map tn_shape ts))) (map tsize (map to_t (map tn_shape ts)))).
+Proof. exact (@real_entry_kernels_safe). Qed.
+Print Assumptions C04_real_entry_kernels_safe.
 
 (* ---- non-vacuity, at R := Z *)
 (* the hypotheses hold: integer + and * commute *)
